@@ -92,6 +92,33 @@ let do_snv h =
   | Exn c -> Printf.printf "R %s exn=%s\n" id (exn_name c)
   | Crash _ -> Printf.printf "R %s CRASH\n" id
 
+(* ---------------------------------------------------------------- crypto oracles (answers supplied by tools/refcrypto.py) *)
+let oracle : (string, string) Hashtbl.t = Hashtbl.create 1024
+let () =
+  match Sys.getenv_opt "VERIF_ORACLE" with
+  | None -> ()
+  | Some path ->
+    (try
+      let ic = open_in path in
+      (try while true do
+        let l = input_line ic in
+        match String.rindex_opt l ' ' with
+        | Some p -> Hashtbl.replace oracle (String.sub l 0 p) (String.sub l (p+1) (String.length l - p - 1))
+        | None -> ()
+      done with End_of_file -> close_in ic)
+    with Sys_error _ -> ())
+let asked : (string, unit) Hashtbl.t = Hashtbl.create 64
+let ask (q : string) : string =
+  match Hashtbl.find_opt oracle q with
+  | Some a -> a
+  | None -> Printf.printf "Q %s\n" q; "?"
+let ask_bool q = (ask q = "1")
+let oracle_tweak q p k par = ask_bool (Printf.sprintf "tweak %s %s %s %d" (hex q) (hex p) (hex k) (if par then 1 else 0))
+let oracle_tweak_add p t : (z list * bool) option =
+  match ask (Printf.sprintf "tweakadd %s %s" (hex p) (hex t)) with
+  | "?" | "none" -> None
+  | a -> let n = String.length a in Some (unhex (String.sub a 0 (n - 2)), String.sub a (n - 1) 1 = "0")
+
 (* ---------------------------------------------------------------- sessions *)
 let base_checker : checker = {
   k_ecdsa = (fun _ _ _ _ -> false);
@@ -271,6 +298,37 @@ let do_flags h =
   | None -> Printf.printf "R %s exit1\n" id
   | Some fl -> Printf.printf "R %s flags=%s names=%s\n" id (string_of_z fl) (String.concat "," (List.map string_of_ascii (svf_names fl)))
 
+(* ---------------------------------------------------------------- taproot commitment *)
+let do_tapcommit h =
+  let id = get h "id" "" in
+  let control = unhex (get h "control" "") and program = unhex (get h "program" "") and scr = unhex (get h "script" "") in
+  if List.length control < 33 || List.length program <> 32 then Printf.printf "R %s badsize\n" id
+  else begin
+    let t0 = tce_new sha256 control program scr in
+    let ks = ref [hex t0.t_k] in
+    let rec go t n =
+      if n = 0 then "processing" else
+      match tce_iterate oracle_tweak sha256 t with
+      | (t', TceProcessing) -> ks := hex t'.t_k :: !ks; go t' (n - 1)
+      | (_, TceDone) -> "done"
+      | (_, TceFailed) -> "failed" in
+    let res = go t0 200 in
+    Printf.printf "R %s %s leaf=%s k=%s\n" id res (hex t0.t_leaf) (String.concat "," (List.rev !ks))
+  end
+
+(* ---------------------------------------------------------------- tap tool *)
+let do_tap h =
+  let id = get h "id" "" in
+  let key = unhex (get h "key" "") in
+  let scripts = unhexlist (get h "scripts" "") in
+  let spend = match Hashtbl.find_opt h "idx" with None -> None | Some i -> Some (nat_of_int (int_of_string i)) in
+  let hrp = ascii (get h "hrp" "bcrt") in
+  match tap_run oracle_tweak_add hrp key scripts spend with
+  | None -> Printf.printf "R %s fail\n" id
+  | Some r ->
+    Printf.printf "R %s addr=%s root=%s tweak=%s outkey=%s even=%d control=%s\n" id (string_of_ascii r.tr_address) (hex r.tr_root) (hex r.tr_tweak)
+      (hex r.tr_output_key) (if r.tr_even then 1 else 0) (match r.tr_control with None -> "-" | Some c -> hex c)
+
 let run_case (l : string) =
   let (kind, h) = parse_line l in
   match kind with
@@ -283,6 +341,8 @@ let run_case (l : string) =
   | "inl" -> do_inl h
   | "tf" -> do_tf h
   | "cli" -> do_cli h
+  | "tapcommit" -> do_tapcommit h
+  | "tap" -> do_tap h
   | "flags" -> do_flags h
   | _ -> Printf.printf "R %s unknownkind\n" (get h "id" "")
 
